@@ -1481,37 +1481,37 @@ def oracle_option_pairs(case):
 
 
 _ROUTES = {'route_sys_idx': 0.1, 'route_sys_pos': 0.05, 'route_sys_mix': 0.045}
-_SHAPES = {'shape_1-N': 0.12, 'shape_N-1': 0.12, 'shape_N-N': 0.12, 'shape_1-1': 0.12}
+_SHAPES = {'shape_1-N': 0.11, 'shape_N-1': 0.11, 'shape_N-N': 0.12, 'shape_1-1': 0.093}
 # object history: the Box object described another cell first / the judged functions saw it in that state / was changed
 # through each public way (guards at about half the observed share)
-_HIST = {'hist': 0.2, 'hist_changed': 0.18, 'hist_warm_changed': 0.13, 'hist_wrap': 0.02, 'hist_sys_box_set_scale': 0.018,
+_HIST = {'hist': 0.2, 'hist_changed': 0.18, 'hist_warm_changed': 0.12, 'hist_wrap': 0.02, 'hist_sys_box_set_scale': 0.012,
          'hist_sys_box_set': 0.015, 'hist_vects=': 0.05, 'hist_set_vects': 0.025}
 # length unit 10^k of the whole case (cell, origin, positions): non-trivial cases in every class of unit
-_UNITS = {'nt_unit_1': 0.15, 'unit<=1e-7': 0.085, 'nt_unit<=1e-7': 0.065, 'nt_unit_1e-6..0.1': 0.05, 'unit>=10': 0.055,
+_UNITS = {'nt_unit_1': 0.13, 'unit<=1e-7': 0.084, 'nt_unit<=1e-7': 0.065, 'nt_unit_1e-6..0.1': 0.039, 'unit>=10': 0.055,
           'nt_unit>=10': 0.04, 'hist_other_unit': 0.02}
 # process history (results of earlier calls compared with their snapshot after later calls with the same and with other numbers
 # of pairs; warm-up results among them) and positions stored / passed as float32 / float16 (guards at half the observed share)
-_PROC = {'ledger': 0.5, 'ledger_mixed_counts': 0.38, 'ledger_warm': 0.13, 'after_other_count': 0.32, 'pos_f32': 0.13,
-         'nt_pos_f32': 0.1, 'arg_f32': 0.095, 'pos_f16': 0.022, 'nt_pos_f16': 0.016, 'arg_f16': 0.015}
+_PROC = {'ledger': 0.5, 'ledger_mixed_counts': 0.38, 'ledger_warm': 0.13, 'after_other_count': 0.32, 'pos_f32': 0.12,
+         'nt_pos_f32': 0.089, 'arg_f32': 0.093, 'pos_f16': 0.022, 'nt_pos_f16': 0.016, 'arg_f16': 0.015}
 # generator classes carried over (B, C, E, F, G of the header; guards at half - rare labels a third - of the observed share)
 _CROSS = {'reuse': 0.28, 'reuse_inputs': 0.28, 'reuse_system': 0.14, 'nt_reuse': 0.19,
           'pos_be': 0.07, 'arg_be': 0.05, 'idx_i8arr': 0.002, 'idx_u8arr': 0.003, 'idx_bearr': 0.0025, 'idx_u64s': 0.0025,
           'idx_i16neg': 0.002,
-          'kind_thresh': 0.05, 'near_tie': 0.055, 'nt_near_tie': 0.05, 'near_face': 0.018, 'half_vector_pairs': 0.028,
-          'tiny_tilt_kept': 0.009,
-          'kind_decades': 0.05, 'row_own': 0.48, 'decades8': 0.03, 'nt_decades8': 0.01, 'rows_alone': 0.05,
-          'sym': 0.26, 'nt_sym': 0.19, 'sym_upper': 0.028, 'nt_sym_upper': 0.022, 'sym_negdiag': 0.035, 'sym_lefthanded': 0.1,
-          'sym_relabel': 0.17}
+          'kind_thresh': 0.047, 'near_tie': 0.051, 'nt_near_tie': 0.046, 'near_face': 0.018, 'half_vector_pairs': 0.027,
+          'tiny_tilt_kept': 0.0084,
+          'kind_decades': 0.045, 'row_own': 0.48, 'decades8': 0.03, 'nt_decades8': 0.01, 'rows_alone': 0.045,
+          'sym': 0.24, 'nt_sym': 0.19, 'sym_upper': 0.027, 'nt_sym_upper': 0.013, 'sym_negdiag': 0.035, 'sym_lefthanded': 0.097,
+          'sym_relabel': 0.16}
 # whole-number positions handed to the free functions in narrow / unsigned / big-endian integer dtypes (kind intcart only)
 _NARROW = {'arg_narrowint': 0.0035, 'arg_unsigned': 0.002, 'arg_int8_16': 0.0025, 'arg_at_limit': 0.0035, 'arg_npscalars': 0.0008}
 _COMMON = dict(_ROUTES, **_CROSS, **_SHAPES, **_HIST, **_UNITS, **_PROC, nt=0.36, nt_mixed=0.36, tilted=0.33, rotated=0.19, origin=0.23, kind_dyadic=0.06,
                kind_intcart=0.045)
 _FORMS = {'spell_fview': 0.03, 'spell_tuple': 0.03, 'spell_list': 0.03, 'spell_intlist': 0.03, 'spell_readonly': 0.03,
-          'spell_forder': 0.03, 'spell_intarray': 0.03, 'int_given_positions': 0.013}
+          'spell_forder': 0.03, 'spell_intarray': 0.03, 'int_given_positions': 0.012}
 
 CLAUSES = [
     Clause('lattice', oracle_lattice, gens_c02.general, quick=11500, thorough=220000,
-           min_share=dict(_COMMON, **_FORMS, **_NARROW, multi_axis_shift=0.22, idx_mask=0.02, idx_slice=0.02, idx_neg=0.02, idx_int=0.025,
+           min_share=dict(_COMMON, **_FORMS, **_NARROW, multi_axis_shift=0.22, idx_mask=0.02, idx_slice=0.012, idx_neg=0.012, idx_int=0.015,
                           idx_npint=0.015),
            desc='d - (p1-p0) is an integer combination of the cell vectors, zero along non-periodic directions, for all 8 pbc; '
                 'one result row per broadcast pair; am.dvect and System.dvect (positions, atom indices, mixed); also on Box / '
@@ -1519,26 +1519,26 @@ CLAUSES = [
     Clause('best27', oracle_best27, gens_c02.general, quick=11500, thorough=220000, min_share=dict(_COMMON, **_NARROW),
            desc='|d| is not longer than any of the 27 (9/3/1) candidates with shifts -1,0,+1 on periodic axes, for all 8 pbc'),
     Clause('mag', oracle_mag, gens_c02.general, quick=9500, thorough=176000,
-           min_share=dict(_COMMON, **_FORMS, **_NARROW, idx_mask=0.02, idx_slice=0.02, idx_int=0.025, dmag_first=0.2),
+           min_share=dict(_COMMON, **_FORMS, **_NARROW, idx_mask=0.02, idx_slice=0.012, idx_int=0.015, dmag_first=0.2),
            desc='dmag equals |dvect| (same route, same inputs, either order of the two calls) and is not longer than any candidate; '
                 'one value per broadcast pair; also on objects with a history (dmag/dvect called before the box was changed in place)'),
     Clause('true_nearest', oracle_true_nearest, gens_c02.premise_heavy, quick=9500, thorough=176000,
-           min_share={'nt': 0.35, 'premise_tilted': 0.2, 'premise_tilted_wrapped': 0.1, 'premise_ortho': 0.2,
-                      'premise_fails_incell': 0.2, 'premise_onface': 0.19, 'unique_vector_checked': 0.4, 'tie': 0.02,
-                      'beyond27': 0.08, 'kind_dyadic': 0.08, 'hist_changed': 0.18, 'hist_warm_changed': 0.13, **_UNITS, **_PROC, **_CROSS},
+           min_share={'nt': 0.34, 'premise_tilted': 0.18, 'premise_tilted_wrapped': 0.079, 'premise_ortho': 0.19,
+                      'premise_fails_incell': 0.19, 'premise_onface': 0.16, 'unique_vector_checked': 0.37, 'tie': 0.02,
+                      'beyond27': 0.067, 'kind_dyadic': 0.045, 'hist_changed': 0.18, 'hist_warm_changed': 0.12, **_UNITS, **_PROC, **_CROSS},
            desc='both points in the cell and (cell orthogonal or L* < half the smallest perpendicular width) => |d| equals the '
                 'minimum L* of an exhaustive lattice search (vector too when the minimiser is unique); always |d| >= L*'),
     Clause('displacement', oracle_displacement, gens_c02.displacement_cases, quick=7500, thorough=132000,
            min_share={'nt': 0.3, 'nt_pbc_differ': 0.3, 'nt_boxes_differ': 0.2, 'ref_initial': 0.14, 'ref_default': 0.07,
-                      'ref_None': 0.07, 'ref_final': 0.2, 'hist': 0.2, 'hist_changed': 0.15, 'nt_hist_changed': 0.12,
-                      'hist_warm': 0.07, 'hist_wrap': 0.03, 'hist_sys_box_set_scale': 0.05, 'int_given_0': 0.1,
-                      'int_given_1': 0.035, 'nt_int0_fractional': 0.05, 'build_scale': 0.06, 'build_safecopy': 0.07,
-                      'ledger': 0.45, 'ledger_mixed_counts': 0.33, 'after_other_ref': 0.2, 'f32_both': 0.08, 'nt_f32_both': 0.055,
+                      'ref_None': 0.07, 'ref_final': 0.15, 'hist': 0.2, 'hist_changed': 0.15, 'nt_hist_changed': 0.11,
+                      'hist_warm': 0.07, 'hist_wrap': 0.03, 'hist_sys_box_set_scale': 0.042, 'int_given_0': 0.1,
+                      'int_given_1': 0.035, 'nt_int0_fractional': 0.048, 'build_scale': 0.06, 'build_safecopy': 0.07,
+                      'ledger': 0.45, 'ledger_mixed_counts': 0.32, 'after_other_ref': 0.2, 'f32_both': 0.08, 'nt_f32_both': 0.055,
                       'narrow_both': 0.1, 'nt_narrow_both': 0.07, 'f32_stored_0': 0.12, 'f32_stored_1': 0.13, 'f16_both': 0.012,
                       'nt_f16_both': 0.009, **dict(_UNITS, hist_other_unit=0.04),
-                      'sym': 0.26, 'nt_sym': 0.18, 'sym_upper': 0.03, 'nt_sym_upper': 0.022, 'near_tie': 0.035, 'nt_near_tie': 0.03,
-                      'row_own': 0.37, 'decades8': 0.015, 'nt_decades8': 0.004, 'reuse': 0.28, 'reuse_inputs': 0.28, 'nt_reuse': 0.17,
-                      'be_stored': 0.09, 'nt_be_stored': 0.06},
+                      'sym': 0.24, 'nt_sym': 0.16, 'sym_upper': 0.019, 'nt_sym_upper': 0.013, 'near_tie': 0.035, 'nt_near_tie': 0.03,
+                      'row_own': 0.37, 'decades8': 0.015, 'nt_decades8': 0.004, 'reuse': 0.28, 'reuse_inputs': 0.28, 'nt_reuse': 0.16,
+                      'be_stored': 0.071, 'nt_be_stored': 0.047},
            desc="displacement(s0, s1, box_reference) under 'final'/default, 'initial', None: lattice + 27-candidate oracles under "
                 'the reference cell and pbc, and equal to dvect atom by atom; all 8 pbc of the reference system; systems holding '
                 'whole-number positions as integers or float32 / float16 positions, built with scale=True / safecopy / a shared Box, or '
